@@ -17,7 +17,9 @@ def run_both(P, exe, scripts, driver_ok, tag):
     impl, ierr = run_impl(exe, scripts, tag, env=getattr(P, 'ENV', None))
     model = None
     if driver_ok:
-        model, merr = run_model(P.MODEL, scripts, extra_args=getattr(P, 'MODEL_ARGS', ()))
+        mi = getattr(P, 'model_input', None)
+        mscripts = [(sid, mi(lines, impl.get(sid, []))) for sid, lines in scripts] if mi else scripts
+        model, merr = run_model(P.MODEL, mscripts, extra_args=getattr(P, 'MODEL_ARGS', ()))
     return impl, model, ierr
 
 
